@@ -13,6 +13,10 @@ code; the generator contributes their INPUTS.  Decided here:
  (4) CrossHair/z3 on the emitted _get_response of every REST stub (lifted unmodified): for ALL verbs the session is called
      once with the transcoded verb and URL, strictly flattened query parameters, the caller's metadata as headers and --
      whenever the rule declares a body -- the payload, whatever the verb.
+ (5) CrossHair/z3 on the emitted __call__ of every REST stub (harness/h04_call.py): for ALL (stub, status class, timeout,
+     metadata) the method's OWN http options are transcoded with the pre-intercepted request, body (iff declared) and
+     query come from that transcoded request, its own _get_response is called once, status >= 400 raises, otherwise the
+     reply is parsed into the declared output type (None for Empty, ResponseIterator for server streaming).
 """
 from __future__ import annotations
 
@@ -26,6 +30,7 @@ from checks import _renamers
 from lib import apis, bstr, ch, core, gen
 
 H = os.path.join(core.VERIF, "harness", "h04_rest.py")
+HC = os.path.join(core.VERIF, "harness", "h04_call.py")
 W = os.path.join(core.REPO, "gapic/schema/wrappers.py")
 
 
@@ -180,6 +185,26 @@ def body(chk: core.Check):
                 c3 = ch.run(H, ["send"], timeout=300, env=dict(env, VERIF_CANARY="drop-delete-body"), jobs=1)[0]
                 chk.canary("payload dropped for DELETE/GET bindings that declare a body (in-memory mutant)",
                            c3["status"] == "refuted", c3.get("call", c3["status"]))
+                # (5) the emitted __call__ of every REST stub: wiring of options -> transcoding -> body/query -> send -> reply
+                hc = ch.load_module(HC, env)
+                for cls_, src_ in sorted(hc.SOURCES.items()):
+                    chk.encoded(f"emitted rest.py: LibraryRestTransport.{cls_}.__call__", src_)
+                chk.bound("rest_call_wiring", f"{hc.N} REST stubs (body / no body / Empty / server streaming) x status in {hc.STATUS} x "
+                          "timeout given or not x caller metadata given or not")
+                res5 = ch.run(HC, ["call_wiring"], timeout=300, env=env, jobs=chk.jobs)
+                ch.settle(chk, HC, res5, "rest-call-wiring")
+                for r in res5:
+                    chk.sample({"harness": "h04_call." + r["func"], "status": r["status"], "seconds": r["seconds"]})
+                tw5 = ch.run(HC, ["twin"], timeout=120, env=env, jobs=1)[0]
+                chk.twin("call_wiring: the last stub with status 400 and a timeout reaches the comparison", tw5["status"] == "refuted")
+                import concurrent.futures as cf
+                cans = [("ignore-errors", "first stub treating only status >= 500 as an error (in-memory mutant)"),
+                        ("wrong-options", "PutThing using GetThing's http options (in-memory mutant)")]
+                with cf.ThreadPoolExecutor(max_workers=2) as ex:
+                    futs = [(c, ex.submit(ch.run, HC, ["call_wiring"], 300, dict(env, VERIF_CANARY=c[0]), 1)) for c in cans]
+                    for c, f in futs:
+                        r = f.result()[0]
+                        chk.canary(c[1], r["status"] == "refuted", r.get("call", r["status"]))
                 cn = ch.run(H, ["required_get"], timeout=300, env=dict(env, VERIF_CANARY="inject-present"), jobs=1)[0]
                 chk.canary("defaults injected even when the key is present (in-memory mutant)", cn["status"] == "refuted",
                            cn.get("call", cn["status"]))
